@@ -2,12 +2,12 @@
    Over every finite sequence of operations on one endpoint (callers starting, inbound frames of
    every kind, clock advances, cancellations, failing writes), every id generator [fresh], every
    positive response timeout, every route configuration.
-   PARTIAL: (i) the liveness half ("if no matching reply arrives, call() does time out") is not a
-   theorem here -- the model's clock is explicit and the harness exercises it; (ii) the real code
-   reads time.time() for the deadline and the loop clock for the timer: one clock in the model;
-   (iii) uuid4 freshness enters as "distinct counters give distinct ids" (hypothesis on [fresh]). *)
+   Safety and liveness (C02_times_out_on_time) are theorems about the model.  PARTIAL: (i) the real
+   code reads time.time() for the deadline and the loop clock for the timer: one clock in the model;
+   (ii) uuid4 freshness is outside the model (the harness probes it); (iii) that asyncio's Queue /
+   wait_for are the FIFO queue and exact timers of the model is observed, not proved. *)
 From Coq Require Import List String Bool ZArith Lia.
-From OV.Model Require Import Json Schema Validate Frame Classes Dispatch Endpoint EndpointProofs Shipped.
+From OV.Model Require Import Json Schema Validate Frame Classes Dispatch Endpoint EndpointProofs EndpointProgress Shipped.
 From OV.Gen Require Import Errors.
 Import ListNotations.
 Local Open Scope string_scope.
@@ -61,7 +61,25 @@ Section C02.
     destruct (inv_wait _ _ _ _ _ _ (Inv_run shipped actions_of errors results_of fresh timeout c timeout_pos ops) k cl d H1 H2) as [_ H].
     exact H.
   Qed.
+
+  (* liveness: from any reachable state in which request k waits with deadline d, any further traffic that
+     is not a reply bearing its id, not its cancellation, and does not reach d -- other callers, stale /
+     unknown / duplicate replies in any number, inbound CALLs, shorter clock advances -- leaves it waiting
+     with the same deadline; and the clock reaching d ends it with a timeout at exactly d *)
+  Theorem C02_times_out_on_time :
+    forall ops mid k uid d dt,
+      is_waiting (run_ops ops) k uid d ->
+      all_harmless shipped actions_of errors results_of fresh timeout c (run_ops ops) k uid d mid ->
+      let st' := fold_left (step shipped actions_of errors results_of fresh timeout c) mid (run_ops ops) in
+      0 < dt -> d <= now st' + dt ->
+      is_waiting st' k uid d /\ is_done (step shipped actions_of errors results_of fresh timeout c st' (OTick dt)) k OTimeout d.
+  Proof.
+    intros ops mid k uid d dt Hw Hh.
+    destruct (reachable_invariants shipped actions_of errors results_of fresh timeout c timeout_pos ops) as [HI [HW HQ]].
+    exact (times_out_on_time shipped actions_of errors results_of fresh timeout c timeout_pos mid (run_ops ops) k uid d dt HI HW HQ Hw Hh).
+  Qed.
 End C02.
+Print Assumptions C02_times_out_on_time.
 Print Assumptions C02_only_own_reply.
 Print Assumptions C02_only_arrived_replies.
 Print Assumptions C02_outcome_from_own_reply.
